@@ -150,6 +150,7 @@ def run(ctx: Ctx, driver: Driver):
         real_fs_histories(ctx, rng, loop, tmpdir)
         entity_roundtrip(ctx, rng)
         cache_prefixes(ctx, rng, tmpdir)
+        cache_histories(ctx, rng, tmpdir)
     finally:
         shutil.rmtree(tmpdir, ignore_errors=True)
         loop.close()
@@ -356,6 +357,73 @@ def entity_roundtrip(ctx, rng):
         if (e["config_num"], e["state_num"], e["broadcast_key"]) != (7, 42, "ab" * 32) or proj(Accessories.from_list(e["accessories"]).serialize()) != proj(s1):
             ctx.violation("entity/cache-entry", f"{fx.name}: cache entry does not round-trip", case)
         ctx.dist["entity:fixture"] += 1
+
+
+def cache_histories(ctx, rng, tmpdir):
+    """write-through histories on the file-backed cache: whatever sequence of updates was made (several pairings; the
+    entity map, the configuration number, the state number and the broadcast key changing together or one at a time,
+    removals), a restart - a new CharacteristicCacheFile on the same file - gives back exactly the live view"""
+    fixtures = [f for f in sorted(pathlib.Path(REPO, "tests", "fixtures").glob("*.json"))]
+    maps = []
+    for fx in fixtures:
+        try:
+            data = json.loads(fx.read_text())
+            if isinstance(data, list) and data and isinstance(data[0], dict) and "services" in data[0]:
+                maps.append((fx.name, Accessories.from_list(data).serialize()))
+        except Exception:  # noqa: BLE001
+            continue
+        if len(maps) >= 3:
+            break
+    loc = pathlib.Path(tmpdir, "cache-hist.json")
+    for trial in range(ctx.budget(12, 150)):
+        if loc.exists():
+            loc.unlink()
+        cf = CharacteristicCacheFile(loc)
+        live = {}
+        hist = []
+        ids = ["aa:bb", "cc:dd"]
+        for _ in range(rng.randrange(2, 7)):
+            pid = rng.choice(ids)
+            prev = live.get(pid)
+            r = rng.random()
+            if prev is not None and r < 0.1:
+                cf.async_delete_map(pid)
+                live.pop(pid)
+                hist.append(f"delete({pid})")
+            else:
+                if prev is None or r < 0.3:
+                    name, m = rng.choice(maps)
+                    new = {"config_num": rng.randrange(1, 9), "accessories": m, "broadcast_key": rng.choice([None, "ab" * 32]), "state_num": rng.choice([None, 1, 7])}
+                else:
+                    # only ONE thing changes: the state number advances, the key is regenerated, or the configuration number moves
+                    new = dict(prev)
+                    what = rng.choice(["state_num", "state_num", "broadcast_key", "config_num"])
+                    new[what] = {"state_num": (prev["state_num"] or 0) + rng.randrange(1, 4), "broadcast_key": "%064x" % rng.getrandbits(256), "config_num": prev["config_num"] + 1}[what]
+                cf.async_create_or_update_map(pid, new["config_num"], new["accessories"], new["broadcast_key"], new["state_num"])
+                live[pid] = new
+                hist.append(f"update({pid}, c#={new['config_num']}, key={'-' if new['broadcast_key'] is None else new['broadcast_key'][:6]}, s#={new['state_num']})")
+            # restart after every step
+            ctx.evaluations += 1
+            again = CharacteristicCacheFile(loc)
+            for q in ids:
+                got = again.get_map(q)
+                want = live.get(q)
+                bad = None
+                if (got is None) != (want is None):
+                    bad = f"{'missing' if got is None else 'still present'} after the restart"
+                elif got is not None:
+                    for fld in ("config_num", "accessories", "broadcast_key", "state_num"):
+                        if got.get(fld) != want[fld]:
+                            bad = f"{fld} is {str(got.get(fld))[:40]!r} after the restart, {str(want[fld])[:40]!r} before it"
+                            break
+                if bad:
+                    ctx.violation("cache/history-not-persisted", f"pairing {q}: {bad}; history: {hist}", {"stream": "cache-history", "history": hist})
+                    break
+            else:
+                continue
+            break
+        ctx.nontrivial.add(("cache-history", len(hist), tuple(h.split("(")[0] for h in hist)))
+        ctx.dist["cache-history"] += 1
 
 
 def cache_prefixes(ctx, rng, tmpdir):
